@@ -131,7 +131,9 @@ func c04Base(variant int) gen.S {
 			return gen.S{"name": "filter", "in": "query", "style": "deepObject", "explode": true, "schema": gen.S{"type": "object", "properties": gen.S{"pw": gen.S{"type": "string", "writeOnly": true}}}, "example": gen.S{"pw": "x"}}
 		}
 		dig(doc, "paths")["/dir"] = gen.S{
-			"get": gen.S{"operationId": "dirGet", "parameters": gen.Arr(qp()), "responses": gen.S{"200": gen.S{"description": "ok", "content": gen.S{"application/json": gen.S{"schema": dirSchema, "example": gen.S{"id": 1.0, "n": "a"}}}}}},
+			"get": gen.S{"operationId": "dirGet", "parameters": gen.Arr(qp()), "responses": gen.S{"200": gen.S{"description": "ok", "content": gen.S{"application/json": gen.S{"schema": dirSchema, "example": gen.S{"id": 1.0, "n": "a"}}},
+				// a response header is read as a response too: its example rightly leaves out the required write-only member
+				"headers": gen.S{"X-Audit": gen.S{"schema": gen.S{"type": "object", "required": gen.Arr("at", "token"), "properties": gen.S{"at": gen.S{"type": "string", "readOnly": true}, "token": gen.S{"type": "string", "writeOnly": true}}}, "example": gen.S{"at": "noon"}}}}}},
 			"post": gen.S{"operationId": "dirPost", "parameters": gen.Arr(qp()), "requestBody": gen.S{"content": gen.S{"application/json": gen.S{"schema": dirSchema, "example": gen.S{"pw": "s", "n": "a"}}}},
 				"responses": gen.S{"200": gen.S{"description": "ok"}}},
 			"put": gen.S{"operationId": "dirPut", "parameters": gen.Arr(qp()), "responses": gen.S{"204": gen.S{"description": "none"}}}}
@@ -532,7 +534,7 @@ func c04Rules() []c04rule {
 		l.obj["default"] = gen.Arr("not", "a", "primitive")
 		return true
 	}})
-	rules = append(rules, c04rule{name: "uncompilable-pattern", kind: "schema", disabled: "DisableSchemaPatternValidation", apply: func(l c04loc) bool {
+	rules = append(rules, c04rule{name: "uncompilable-pattern", kind: "schema", disabled: "DisableSchemaPatternValidation", contested: "SetRegexCompiler(accepts-any-pattern)", apply: func(l c04loc) bool {
 		if typeOf(l.obj) != "string" {
 			return false
 		}
@@ -694,6 +696,10 @@ func c04Rules() []c04rule {
 	return rules
 }
 
+type c04AnyMatcher struct{}
+
+func (c04AnyMatcher) MatchString(string) bool { return true }
+
 type c04optset struct {
 	name string
 	opts []openapi3.ValidationOption
@@ -703,6 +709,9 @@ func c04OptionSets() []c04optset {
 	// option values are built once and reused for every call of the process, alone and together with others
 	allowBogus, allowOther := openapi3.AllowExtraSiblingFields("bogusField"), openapi3.AllowExtraSiblingFields("other")
 	return []c04optset{
+		// the caller's own pattern engine, which takes every pattern: it comes FIRST, so that whatever it leaves behind (a compiled
+		// pattern kept by its text) meets the sets that follow, which use the built-in engine
+		{"SetRegexCompiler(accepts-any-pattern)", []openapi3.ValidationOption{openapi3.SetRegexCompiler(func(string) (openapi3.RegexMatcher, error) { return c04AnyMatcher{}, nil })}},
 		{"AllowExtraSiblingFields(other)+AllowExtraSiblingFields(bogusField)", []openapi3.ValidationOption{allowOther, allowBogus}},
 		{"default", nil},
 		{"DisableExamplesValidation", []openapi3.ValidationOption{openapi3.DisableExamplesValidation()}},
